@@ -44,15 +44,58 @@ fn bytes(n: usize) -> [u8; 8] {
 #[cfg(kani)] pub fn i64() -> i64 { kani::any() }
 #[cfg(kani)] pub fn f64() -> f64 { kani::any() }
 
-#[cfg(not(kani))] pub fn u8() -> u8 { bytes(1)[0] }
-#[cfg(not(kani))] pub fn bool() -> bool { bytes(1)[0] != 0 }
+#[cfg(not(kani))] pub fn u8() -> u8 { if enumerating() { return choice(1); } bytes(1)[0] }
+#[cfg(not(kani))] pub fn bool() -> bool { if enumerating() { return choice(2) != 0; } bytes(1)[0] != 0 }
 #[cfg(not(kani))] pub fn u16() -> u16 { let b = bytes(2); u16::from_le_bytes([b[0], b[1]]) }
 #[cfg(not(kani))] pub fn u64() -> u64 { u64::from_le_bytes(bytes(8)) }
 #[cfg(not(kani))] pub fn i64() -> i64 { i64::from_le_bytes(bytes(8)) }
 #[cfg(not(kani))] pub fn f64() -> f64 { f64::from_bits(u64::from_le_bytes(bytes(8))) }
 
 /// value in 0..n
+#[cfg(kani)]
 pub fn below(n: u8) -> u8 { let x = u8(); assume(x < n); x }
+#[cfg(not(kani))]
+pub fn below(n: u8) -> u8 { if enumerating() { return choice(n); } let x = u8(); assume(x < n); x }
+
+// ---- native exhaustive enumeration of the decision tree of a harness body (a counterexample *finder* used after a
+// verifier reported a failed obligation, and a development aid; it decides nothing) -------------------------
+#[cfg(not(kani))]
+thread_local! {
+    static ENUM: Cell<bool> = Cell::new(false);
+    static SCRIPT: RefCell<Vec<(u8, u8)>> = RefCell::new(Vec::new());
+    static EPOS: Cell<usize> = Cell::new(0);
+}
+#[cfg(not(kani))]
+fn enumerating() -> bool { ENUM.with(|e| e.get()) }
+#[cfg(not(kani))]
+fn choice(arity: u8) -> u8 {
+    let pos = EPOS.with(|p| { let v = p.get(); p.set(v + 1); v });
+    SCRIPT.with(|s| {
+        let mut s = s.borrow_mut();
+        if pos < s.len() { s[pos].1 = arity; s[pos].0.min(arity.saturating_sub(1)) } else { s.push((0, arity)); 0 }
+    })
+}
+/// start enumeration mode with an empty script
+#[cfg(not(kani))]
+pub fn enum_start() { ENUM.with(|e| e.set(true)); SCRIPT.with(|s| s.borrow_mut().clear()); }
+/// prepare the next run; false when the tree is exhausted
+#[cfg(not(kani))]
+pub fn enum_begin_run() { EPOS.with(|p| p.set(0)); ASSUME_FAILED.with(|e| e.set(false)); FAILED.with(|f| f.borrow_mut().clear()); }
+#[cfg(not(kani))]
+pub fn enum_advance() -> bool {
+    let used = EPOS.with(|p| p.get());
+    SCRIPT.with(|s| {
+        let mut s = s.borrow_mut();
+        s.truncate(used);
+        while let Some((c, a)) = s.pop() {
+            if c + 1 < a { s.push((c + 1, a)); return true; }
+        }
+        false
+    })
+}
+/// the current script as replayable values (one byte per decision)
+#[cfg(not(kani))]
+pub fn enum_script() -> Vec<u8> { SCRIPT.with(|s| s.borrow().iter().map(|(c, _)| *c).collect()) }
 
 /// `kani::assume` under Kani; natively a violated assumption marks the replay as "not a valid input"
 #[cfg(kani)]
